@@ -241,7 +241,9 @@ CLAIMS = {
              "strchr, identified from observation facts) succeeded, the scan advances by exactly one position only "
              "after a failed test and ends only when no candidate is left - hence the result is the first/last matching "
              "candidate, as in std::string. compare() (15 overloads) is decided as sign of memcmp over the common length, "
-             "else sign of the length difference. Not decided: sprintf's text, std::string-iterator overloads, the four "
+             "else sign of the length difference. Simple observers (length/empty/c_str/data/str/at/[]/front/back/substr/copy) "
+             "and iteration (begin/rbegin positions, exact stepping of ++/-- to the neighbouring index resp. the end marker, "
+             "dereference at the index) are proved against exact post-conditions. Not decided: sprintf's text, std::string-iterator overloads, the four "
              "( const char*, pos, count) character-set overloads (nested loops).",
         note="trusted base: clang front end, extractor, cv/lin.py + cv/bounds.py + cv/boolshape.py, the std::string "
              "specification table in cv/props/c11.py; sources do not alias the destination",
